@@ -336,7 +336,19 @@ impl<'a> ExprAST<'a> {
         ) {
             tmp = "(".to_string() + &tmp + ")";
         }
-        tmp + " " + op
+        let mut ans = tmp + " " + op;
+        // an operator spelled as a word is read up to the next blank or bracket: keep the
+        // `,`, `;` or `:` that follows in a call, list, map or chain from becoming part of it
+        let symbolic = op.starts_with(|ch| {
+            matches!(
+                ch,
+                '+' | '-' | '*' | '/' | '^' | '%' | '&' | '!' | '=' | '?' | ':' | '>' | '<' | '|'
+            )
+        });
+        if !symbolic {
+            ans.push(' ');
+        }
+        ans
     }
 
     fn ternary_expr(&self, condition: &ExprAST, lhs: &ExprAST, rhs: &ExprAST) -> String {
